@@ -256,3 +256,22 @@ Definition sat_after (sched : list sat_op) (g : Z) : option (Z * Z) :=
 (* first and last batch whose read range holds sample g *)
 Definition sat_first (c : cfg) (g : Z) : Z := Z.max 0 (cdiv (g - c_NB c + 1) (stride c)).
 Definition sat_last (c : cfg) (g : Z) : Z := Z.min (last_batch c) (g / stride c).
+
+(* ---- what already exists at output_file ------------------------------------ *)
+(* if append: offset = Path(output_file).stat().st_size        (the file is kept)
+   else:      offset = 0; open(output_file, "wb").close()      (created, or TRUNCATED to 0 bytes)
+   pre_len = length in bytes of the file found at output_file (0: absent or empty).
+   Result: (bytes of the old file that are kept, offset). *)
+Definition start_state (append : bool) (pre_len : Z) : Z * Z :=
+  if append then (pre_len, pre_len) else (0, 0).
+
+(* a byte of the final file: still the old file's byte b, or written by this run *)
+Inductive fbyte := Old (b : Z) | New (x : cell).
+Definition final_byte (c : cfg) (kept : Z) (sched : list wop) (b : Z) : option fbyte :=
+  match file_after c sched b with
+  | Some x => Some (New x)
+  | None => if (0 <=? b) && (b <? kept) then Some (Old b) else None
+  end.
+(* length of the final file: kept bytes, extended by the writes *)
+Definition final_length (c : cfg) (kept : Z) : Z :=
+  Z.max kept (c_offset c + (c_ns c + c_ns2add c) * rowbytes c).
